@@ -20,8 +20,8 @@ fn normalized_sqrt_rem(self) -> (u64, u128)
     let (a, b) = (a as u64, b as u64);
     let (s1, r1) = a.normalized_sqrt_rem();
     /*@ proof {
-        assert(p * p == 0x1_0000_0000_0000_0000) by (compute);
-        assert(ph * ph == 0x4000_0000_0000_0000 && (2 * ph) * (2 * ph) == 0x1_0000_0000_0000_0000) by (compute);
+        assert(p * p == 0x1_0000_0000_0000_0000) by (nonlinear_arith) requires p == 0x1_0000_0000int;
+        assert(ph * ph == 0x4000_0000_0000_0000 && (2 * ph) * (2 * ph) == 0x1_0000_0000_0000_0000) by (nonlinear_arith) requires ph == 0x8000_0000int;
         lemma_br_kara_s1_range(a as int, s1 as int, r1 as int, ph);
     } @*/
 
